@@ -286,6 +286,14 @@ class Module:
                     n.target, ast.Attribute) and isinstance(
                         n.target.value, ast.Name) and n.target.value.id == "self":
                 cls.fields.setdefault(n.target.attr, n.annotation)
+            elif isinstance(n, ast.Assign) and len(n.targets) == 1 and \
+                    isinstance(n.targets[0], ast.Attribute) and isinstance(
+                        n.targets[0].value, ast.Name) and \
+                    n.targets[0].value.id == "self" and isinstance(
+                        n.value, ast.Name) and fi.name == "__init__":
+                ann = fi.param_annotation(n.value.id)
+                if ann is not None:
+                    cls.fields.setdefault(n.targets[0].attr, ann)
 
     def func(self, qualname: str) -> FunctionInfo:
         try:
